@@ -15,6 +15,7 @@ rc=0
 for p in $props; do
   out=$(bin/mcpcheck -property $p -repo "$d" -no-evidence 2>&1)
   n=$(echo "$out" | grep -c "^MUTANT-REPORT")
+  if echo "$out" | grep -q "^panic:\|^goroutine \|load failure"; then echo "$p: CHECKER CRASHED"; echo "$out" | head -5; rc=1; continue; fi
   echo "$p: $n reports"
   echo "$out" | grep "^MUTANT-REPORT" | sed 's/^MUTANT-REPORT /    /' | cut -c1-230
   [ "$n" -gt 0 ] && rc=1
